@@ -15,10 +15,10 @@ and the direct oracle: received == sent, in order, then end-of-stream; an error 
 import asyncio
 import logging
 import struct
-import sys
 import zlib
 
 from harness import vloop, wire, peer as P
+from harness.c01_util import BufferTap, BufferView, H2Watch, mask_summary, recv_endpoint
 from harness.core import Result
 from harness.svc import RawCodec, Service, exc_name
 
@@ -34,8 +34,13 @@ TRUSTED = ['modelled, not verified: asyncio.Queue.get/put_nowait wake-up (a bloc
            'ocaml/dC01.ml re-executes itself once under `ulimit -s unlimited` (extracted list functions '
            'are not tail recursive); payload bytes are generated on both sides from (seed, index, size) '
            'and compared as length + adler32',
-           'observation of (window, max_frame_size) at the h2 API boundary (instance wrapper around '
-           'H2Connection.local_flow_control_window); Buffer.add/eof calls recorded by a class wrapper']
+           'observation of (window, max_frame_size) at the public h2 API (class wrappers around '
+           'H2Connection.__init__ / local_flow_control_window / send_data; the read h2 makes inside its own '
+           'send_data is not an observation); Buffer.add/eof calls recorded by a class wrapper, a buffer is '
+           'recognised by the bytes that went through it',
+           'grpclib internals are located by role (harness/c01_util.py): the counters of a Buffer by the type '
+           'of the attribute holding them; what cannot be located is masked on both sides and counted under '
+           '"unobservable:*" in the distribution']
 ASSUMPTIONS = ['one task at a time calls recv_message on a stream (no concurrent readers of one Buffer)',
                'the consumer stops calling recv_message after end-of-stream or the first exception '
                '(see finding D41 for what happens otherwise)',
@@ -70,7 +75,7 @@ def credits(cr):
 
 
 def buf_summary(buf):
-    return '|%d,%d,%d,%d' % (buf._acked_size, buf._unacked.qsize(), 1 if buf._eof else 0, len(buf._acked))
+    return BufferView(buf).summary()
 
 
 def err_token(e):
@@ -176,23 +181,10 @@ def recv_stream(c):
     return s if c['keep'] < 0 else s[:c['keep']]
 
 
-class _FakeConn:
-    """what protocol.Stream needs from its Connection in order to receive"""
-    streams_started = 0
-    last_stream_created = None
-
-    def __init__(self):
-        self.acks = []
-
-    def ack(self, stream_id, size):
-        self.acks.append(size)
-
-
 def impl_recv(loop, c):
-    from grpclib.protocol import Stream
     from grpclib.stream import recv_message
-    conn = _FakeConn()
-    st = Stream(conn, None, None, stream_id=1)
+    acks = []
+    st, _how = recv_endpoint(acks)
     stream = recv_stream(c)
     pos = 0
     task = None
@@ -210,8 +202,8 @@ def impl_recv(loop, c):
             if task is None:
                 task = loop.create_task(recv_message(st, codec, bytes))
             loop.run_quiet(1)
-            cr = credits(conn.acks)
-            del conn.acks[:]
+            cr = credits(acks)
+            del acks[:]
             if task.done():
                 e = task.exception()
                 if e is not None:
@@ -385,35 +377,28 @@ def size_menu(frame, window):
     return [0, 1, 4, 5, 6, frame - 1, frame, frame + 1, window - 1, window, window + 1, 3 * window]
 
 
-def run_psend(loop, c, rng_factory):
-    """c: side, iw (peer INITIAL_WINDOW_SIZE), cw (connection window), mf, sizes, seed, script seed"""
+def run_psend(loop, c, rng_factory, hw):
+    """c: side, iw (peer INITIAL_WINDOW_SIZE), cw (connection window), mf, sizes, seed, script seed;
+    hw: the active H2Watch"""
     from grpclib.client import StreamStreamMethod
     from h2.events import DataReceived, RequestReceived, StreamEnded
     from h2.settings import SettingCodes
     rng = rng_factory(c['script'])
     msgs = [gen_msg(c['seed'], i, n) for i, n in enumerate(c['sizes'])]
-    obs, marks = [], []
+    marks = []
     gate = asyncio.Event()
-    state = {}
+    state = {'obs': None}
+    mark0 = hw.mark()
 
-    def spy_on(proto):
-        h2c = proto.connection._connection
-        orig = h2c.local_flow_control_window
-
-        def spy(sid):
-            w = orig(sid)
-            # h2's own send_data asks too; only the reads made by grpclib's loop are observations
-            if sys._getframe(1).f_code.co_filename.endswith('grpclib/protocol.py'):
-                obs.append((w, h2c.max_outbound_frame_size))
-            return w
-        h2c.local_flow_control_window = spy
+    def nobs():
+        return len(state['obs']) if state['obs'] is not None else 0
 
     async def send_all(st):
         await gate.wait()
         for m in msgs:
-            marks.append(len(obs))
+            marks.append(nobs())
             await st.send_message(m)
-        marks.append(len(obs))
+        marks.append(nobs())
 
     if c['side'] == 'client':
         end = wire.ClientEnd(loop)
@@ -440,7 +425,10 @@ def run_psend(loop, c, rng_factory):
         loop.run_quiet(1)
         task = None
     peer.auto_ack = False
-    spy_on(end.proto)
+    # grpclib's side of this connection: the one H2Connection made for this case that is not the peer's
+    mine = hw.since(mark0, exclude=[peer.h2])
+    if len(mine) == 1:
+        state['obs'] = hw.observe(mine[0])
     peer.settings({SettingCodes.INITIAL_WINDOW_SIZE: c['iw'], SettingCodes.MAX_FRAME_SIZE: c['mf']})
     if c['cw'] > 65535:
         peer.window_update(0, c['cw'] - 65535)
@@ -501,7 +489,7 @@ def run_psend(loop, c, rng_factory):
     else:
         loop.run_quiet(1)
         drain()
-    return {'frames': frames, 'wire': bytes(wire_bytes), 'obs': obs, 'marks': marks, 'msgs': msgs,
+    return {'frames': frames, 'wire': bytes(wire_bytes), 'obs': state['obs'], 'marks': marks, 'msgs': msgs,
             'violations': [type(v).__name__ for v in peer.violations], 'rounds': rounds,
             'ended': ended, 'task': vloop.outcome(task)[0] if task is not None else None}
 
@@ -509,14 +497,17 @@ def run_psend(loop, c, rng_factory):
 def check_psend(ctx, res, cases, rng_factory):
     runs = []
     lines = []
-    for c in cases:
-        with vloop.session() as loop:
-            try:
-                o = run_psend(loop, c, rng_factory)
-            except Exception as e:        # harness trouble is a broken tie, not a pass
-                o = {'error': repr(e)}
-        runs.append(o)
-        if 'error' not in o and len(o['marks']) == len(o['msgs']) + 1:
+    with H2Watch() as hw:
+        for c in cases:
+            with vloop.session() as loop:
+                try:
+                    o = run_psend(loop, c, rng_factory, hw)
+                except Exception as e:        # harness trouble is a broken tie, not a pass
+                    import traceback
+                    o = {'error': repr(e) + traceback.format_exc()[-300:]}
+            runs.append(o)
+    for o in runs:
+        if 'error' not in o and o['obs'] is not None and len(o['marks']) == len(o['msgs']) + 1:
             for i, m in enumerate(o['msgs']):
                 lines.append(send_line(5 + len(m), o['obs'][o['marks'][i]:o['marks'][i + 1]]))
     model = ctx.model(lines) if ctx.model_ok and lines else None
@@ -528,12 +519,14 @@ def check_psend(ctx, res, cases, rng_factory):
         if 'error' in o:
             res.disagreements.append({'case': c, 'model': None, 'impl': o['error']})
             continue
-        res.sample({'kind': 'psend', 'case': c, 'data_frames': o['frames'][:12], 'observations': o['obs'][:8]},
-                   limit=8)
+        res.sample({'kind': 'psend', 'case': c, 'data_frames': o['frames'][:12],
+                    'observations': (o['obs'] or [])[:8]}, limit=8)
         for f in o['frames']:
             res.count('psend:frame<=%d' % (1 << max(0, (f - 1)).bit_length()))
         complete = len(o['marks']) == len(o['msgs']) + 1
-        if model is not None and complete:
+        if o['obs'] is None:
+            res.count('unobservable:psend-window-observations')
+        if model is not None and complete and o['obs'] is not None:
             res.traces += 1
             sizes = []
             ok = True
@@ -558,7 +551,7 @@ def check_psend(ctx, res, cases, rng_factory):
             sig, what = 'sender-stalled', 'sender did not finish although credit kept coming'
         if sig:
             res.oracle_failures.append({'case': c, 'what': what, 'signature': {'kind': 'psend', 'fail': sig},
-                                        'observed': {'frames': o['frames'][:40], 'obs': o['obs'][:40]}})
+                                        'observed': {'frames': o['frames'][:40], 'obs': (o['obs'] or [])[:40]}})
 
 
 def gen_psend_cases(ctx, rng):
@@ -582,40 +575,6 @@ def gen_psend_cases(ctx, rng):
 
 
 # ---- recording what reaches the buffers -----------------------------------------------------------------
-
-class BufferTap:
-    """records Buffer.add / Buffer.eof calls per buffer (class-level wrapper, removed on exit)"""
-
-    def __enter__(self):
-        from grpclib import protocol
-        self.cls = protocol.Buffer
-        self.orig_add, self.orig_eof = self.cls.add, self.cls.eof
-        self.log = {}
-        tap = self
-
-        def add(b, data, ack_size):
-            tap.keep.append(b)           # keep the object alive: ids must not be reused within a case
-            tap.log.setdefault(id(b), []).append(('a', len(data), ack_size))
-            return tap.orig_add(b, data, ack_size)
-
-        def eof(b):
-            tap.keep.append(b)
-            tap.log.setdefault(id(b), []).append(('e',))
-            return tap.orig_eof(b)
-        self.cls.add, self.cls.eof = add, eof
-        self.keep = []
-        return self
-
-    def reset(self):
-        self.log = {}
-        self.keep = []
-
-    def __exit__(self, *a):
-        self.cls.add, self.cls.eof = self.orig_add, self.orig_eof
-
-    def ops(self, buf):
-        return ['a%d.%d' % (x[1], x[2]) if x[0] == 'a' else 'e' for x in self.log.get(id(buf), [])]
-
 
 def tokens_of(got):
     out = []
@@ -669,11 +628,9 @@ def run_precv(loop, c, rng_factory, tap):
     stream = recv_stream(c)
     cfg = Configuration(http2_connection_window_size=c['cw'], http2_stream_window_size=c['sw'])
     got = []
-    state = {'buf': None}
     delays = c.get('delays', False)
 
     async def consume(st):
-        state['buf'] = st._stream.buffer
         try:
             while True:
                 m = await st.recv_message()
@@ -721,6 +678,7 @@ def run_precv(loop, c, rng_factory, tap):
         frames = plan_frames(rng, stream, max_frame)
     sent = []
     stalled = False
+    delivered = 0
     for data, pad in frames:
         need = len(data) + (0 if pad is None else pad + 1)
         tries = 0
@@ -746,6 +704,7 @@ def run_precv(loop, c, rng_factory, tap):
                     cuts = list(range(1, len(raw)))             # one-byte socket reads
             peer.transport.feed(raw, cuts)
         sent.append('a%d.%d' % (len(data), need))
+        delivered += len(data)
         if c.get('run_after_each') or rng.random() < 0.35:
             loop.run_quiet(rng.choice([0.0001, 1, 10]))
     if not stalled and c.get('end', True):
@@ -756,15 +715,16 @@ def run_precv(loop, c, rng_factory, tap):
             sent.append('a0.0')          # h2 ends a stream with an empty DATA frame carrying END_STREAM
         sent.append('e')
     loop.run_quiet(200)
-    buf = state['buf']
-    return {'got': tokens_of(got), 'sent': sent, 'seen': tap.ops(buf) if buf is not None else None,
+    # the buffer of this stream: the one the bytes of the stream went through
+    return {'got': tokens_of(got), 'sent': sent, 'seen': tap.assign({'x': stream[:delivered]})['x'],
             'stalled': stalled, 'stream': stream}
 
 
 def check_recv_e2e(ctx, res, cases, rng_factory, runner, label):
     runs = []
     lines, idx = [], []
-    with BufferTap() as tap:
+    with BufferTap() as tap, H2Watch() as hw:
+        tap.h2 = hw
         for c in cases:
             tap.reset()
             with vloop.session() as loop:
@@ -790,7 +750,11 @@ def check_recv_e2e(ctx, res, cases, rng_factory, runner, label):
         if 'error' in o:
             res.disagreements.append({'case': c, 'model': None, 'impl': o['error']})
             continue
+        if o.get('mf_applied') is False:
+            res.count('unobservable:link-max-frame-not-applied')
         for d in o['dirs']:
+            if d['seen'] is None:
+                res.count('unobservable:%s-frames-seen-by-buffer' % label)
             res.signatures.add((label, d['name'], c.get('cw'), c.get('sw'), tuple(d['mcase']['sizes']),
                                 d['mcase']['keep'], len(d['seen'] or [])))
             res.count('%s:%s:%s' % (label, d['name'], py_parse(d['stream'])[1]))
@@ -876,11 +840,9 @@ def run_link(loop, c, rng_factory, tap):
     A = [gen_msg(c['seed'], i, n) for i, n in enumerate(c['sizes_up'])]
     B = [gen_msg(c['seed'] + 1, i, n) for i, n in enumerate(c['sizes_down'])]
     got_srv, got_cli = [], []
-    bufs = {}
     delays = c.get('delays', False)
 
     async def pump(st, got, name):
-        bufs[name] = st._stream.buffer
         try:
             while True:
                 m = await st.recv_message()
@@ -918,18 +880,32 @@ def run_link(loop, c, rng_factory, tap):
         k = rng.choice([1, 2, 3, 8])
         return sorted(rng.randrange(0, n + 1) for _ in range(k))
 
-    async def create_conn():
-        cp, sp = ch._protocol_factory(), srv._protocol_factory()
+    hw = tap.h2
+
+    async def create_connection(factory, *args, **kw):
+        # the asyncio boundary: what Channel asks of its loop.  The server end is a protocol object made
+        # the way Server makes them for loop.create_server.
+        mark = hw.mark()
+        cp, sp = factory(), wire.protocol_factory_of(srv)()
         link = wire.Link(loop, cp, sp, cutter)
         cp.connection_made(link.ta)
         sp.connection_made(link.tb)
         if c.get('mf'):
             from h2.settings import SettingCodes
-            for pr in (cp, sp):
-                pr.connection._connection.update_settings({SettingCodes.MAX_FRAME_SIZE: c['mf']})
-                pr.connection.flush()
-        return cp
-    ch._create_connection = create_conn
+            ends = hw.since(mark)            # the two H2Connections these protocols have just made
+            if len(ends) == 2:
+                for h2c in ends:
+                    h2c.update_settings({SettingCodes.MAX_FRAME_SIZE: c['mf']})
+                for tr, h2c in zip((link.ta, link.tb), ends):
+                    data = h2c.data_to_send()
+                    if data:
+                        tr.write(data)
+            else:
+                state['mf_applied'] = False
+        return link.ta, cp
+    state = {'mf_applied': True}
+    loop.create_connection = create_connection
+    loop.create_unix_connection = create_connection
     method = StreamStreamMethod(ch, '/v.S/M', bytes, bytes)
 
     async def call():
@@ -944,15 +920,16 @@ def run_link(loop, c, rng_factory, tap):
     r = loop.run_quiet(2000)
     out = vloop.outcome(task)
     dirs = []
+    streams = {'up': b''.join(grpc_frame(m) for m in A), 'down': b''.join(grpc_frame(m) for m in B)}
+    seen = tap.assign(streams)
     for name, got, msgs, seed, sizes in (('up', got_srv, A, c['seed'], c['sizes_up']),
                                          ('down', got_cli, B, c['seed'] + 1, c['sizes_down'])):
-        stream = b''.join(grpc_frame(m) for m in msgs)
-        buf = bufs.get(name)
+        stream = streams[name]
         dirs.append({'name': name, 'got': tokens_of(got), 'sent': None,
-                     'seen': tap.ops(buf) if buf is not None else None,
+                     'seen': seen[name],
                      'stalled': out[0] == 'pending', 'stream': stream, 'ended': True,
                      'mcase': {'seed': seed, 'keep': -1, 'tail': '', 'sizes': sizes}})
-    return {'dirs': dirs, 'task': out[0]}
+    return {'dirs': dirs, 'task': out[0], 'mf_applied': state['mf_applied']}
 
 
 def gen_link_cases(ctx, rng):
@@ -992,11 +969,17 @@ def check_buf(ctx, res, cases):
                 res.count('buf:outcome:' + t.split(':')[0][0])
             res.signatures.add(('buf', tuple(c['ops'])))
             res.sample({'kind': 'buf', 'ops': c['ops'], 'impl': impl}, limit=3)
+            if impl.startswith('HARNESS'):           # the harness could not drive the Buffer: tie broken
+                res.disagreements.append({'case': c, 'model': None, 'impl': impl})
+                continue
             if model is not None:
                 res.traces += 1
-                if model[i] != impl:
+                m, masked = mask_summary(model[i], impl)
+                for name in masked:
+                    res.count('unobservable:buffer-' + name)
+                if m != impl:
                     res.disagreements.append({'case': c, 'model': model[i], 'impl': impl})
-            if 'Xindex' in impl or 'HARNESS' in impl:
+            if 'Xindex' in impl:
                 res.oracle_failures.append({'case': c, 'what': 'Buffer.read raised an internal error: ' + impl[:80],
                                             'signature': {'kind': 'buf', 'fail': 'internal-error'},
                                             'observed': impl})
@@ -1023,13 +1006,16 @@ def check_recv(ctx, res, cases):
                                                  else 'padded' if a > n else 'plain'))
             res.signatures.add(('recv', tuple(c['sizes']), c['keep'], c['tail'], tuple(c['ops'])))
             res.sample({'kind': 'recv', 'case': c, 'impl': impl}, limit=5)
-            if model is not None:
-                res.traces += 1
-                if model[i] != impl:
-                    res.disagreements.append({'case': c, 'model': model[i], 'impl': impl})
             if impl.startswith('HARNESS'):
                 res.disagreements.append({'case': c, 'model': None, 'impl': impl})
                 continue
+            if model is not None:
+                res.traces += 1
+                m, masked = mask_summary(model[i], impl)
+                for name in masked:
+                    res.count('unobservable:buffer-' + name)
+                if m != impl:
+                    res.disagreements.append({'case': c, 'model': model[i], 'impl': impl})
             for text, kind in oracle_recv(c, impl):
                 res.oracle_failures.append({'case': c, 'what': text,
                                             'signature': {'kind': 'recv', 'fail': kind}, 'observed': impl})
